@@ -8,7 +8,6 @@ from pegen import grammar
 from pegen.build import build_parser
 from pegen.grammar import (
     Alt,
-    Forced,
     Gather,
     Item,
     NamedItem,
@@ -67,14 +66,16 @@ class XonshCallMakerVisitor(PythonCallMakerVisitor):
             len(node.alts) <= 1
             or (any(a.action for a in node.alts))
             or (any(len(a.items) > 1 for a in node.alts))
-            # a forced token would be evaluated while the argument tuple is built, before earlier alternatives
-            or (any(isinstance(a.items[0].item, Forced) for a in node.alts))
         ):
             return None
         alt_funcs = itertools.chain.from_iterable(a.items for a in node.alts)
         args = []
         for fn in alt_funcs:
             head, tail = self.lookahead_call_helper(fn, nested=False)
+            if "self." in tail:
+                # an argument that is itself a call (a forced token, also behind a group) would run while the
+                # argument tuple is built, i.e. before the earlier alternatives
+                return None
             if tail:
                 args.append(f"({head}, {tail})")  # tuple
             else:
